@@ -124,10 +124,13 @@ func newRig() (adapter.Adapter, *recStore) {
 	return a, st
 }
 
+// optsOf builds the options with thread-unsafe sets: their iteration order is fixed (sorted) in the
+// instrumented build, while the thread-safe set's Each walks its map in Go's random order, which would
+// make executions irreproducible. (The BroadcastOperator paths use the library's own thread-safe sets.)
 func optsOf(T, E int) *adapter.BroadcastOptions {
 	o := adapter.NewBroadcastOptions()
-	o.Rooms = mapset.NewSet[adapter.Room](roomsOf(T)...)
-	o.Except = mapset.NewSet[adapter.Room](roomsOf(E)...)
+	o.Rooms = mapset.NewThreadUnsafeSet[adapter.Room](roomsOf(T)...)
+	o.Except = mapset.NewThreadUnsafeSet[adapter.Room](roomsOf(E)...)
 	return o
 }
 
@@ -332,6 +335,11 @@ func canonOf(rooms, sids map[string][]string) string {
 
 // ---------------------------------------------------------------- A(i): membership matrices
 
+// sink receives violations (the report, or a recorder when a replay file is re-run).
+type sink interface {
+	Violate(key, msg string, replay any)
+}
+
 type aStats struct {
 	evals, nontrivial int
 }
@@ -349,7 +357,7 @@ func submasks(univ int) []int {
 
 // evalMatrix builds the membership m on a fresh real adapter with AddAll and evaluates every (T,E)
 // over the rooms in univ through every selecting method.
-func evalMatrix(variant string, m amodel, univ int, r *vx.Report, stats *aStats) {
+func evalMatrix(variant string, m amodel, univ int, r sink, stats *aStats) {
 	a, st := newRig()
 	for i, id := range sockIDs {
 		if m.present[i] {
@@ -359,7 +367,8 @@ func evalMatrix(variant string, m amodel, univ int, r *vx.Report, stats *aStats)
 	viol := func(method string, T, E int) func(key, detail string) {
 		return func(key, detail string) {
 			r.Violate(key, fmt.Sprintf("membership %s(%s), T=%s E=%s, %s: %s", m.key(), variant, maskStr(T), maskStr(E), method, detail),
-				map[string]any{"part": "A.i", "variant": variant, "membership": m.key(), "T": maskStr(T), "E": maskStr(E), "method": method})
+				map[string]any{"part": "A.i", "variant": variant, "membership": m.key(), "T": maskStr(T), "E": maskStr(E), "method": method,
+					"present": m.present, "rows": m.rows, "univ": univ})
 		}
 	}
 	checkIndexes("adapter", a, m, "AddAll", viol("AddAll x3", 0, 0))
@@ -375,7 +384,6 @@ func evalMatrix(variant string, m amodel, univ int, r *vx.Report, stats *aStats)
 		st.reset()
 		f(n)
 		stats.evals++
-		r.Evaluations++
 		judgeSel("adapter", m, T, E, st.counts(), viol(method, T, E))
 		want := fmt.Sprintf(`2["ev",%d]`, n)
 		for p := range st.payloads {
@@ -389,7 +397,6 @@ func evalMatrix(variant string, m amodel, univ int, r *vx.Report, stats *aStats)
 	}
 	fetch := func(method string, T, E int, f func() []adapter.Socket) {
 		stats.evals++
-		r.Evaluations++
 		judgeSel("adapter", m, T, E, countSockets(f()), viol(method, T, E))
 	}
 	for _, T := range subs {
@@ -411,7 +418,6 @@ func evalMatrix(variant string, m amodel, univ int, r *vx.Report, stats *aStats)
 			fetch("BroadcastOperator.To.Except.FetchSockets", T, E, op.FetchSockets)
 		}
 		stats.evals++
-		r.Evaluations++
 		judgeSel("adapter", m, T, 0, countSet(a.Sockets(mapset.NewSet[adapter.Room](roomsOf(T)...))), viol("adapter.Sockets", T, 0))
 	}
 	// the root operator was the receiver of every To(): it must still select the whole namespace
@@ -452,6 +458,7 @@ func partAMatrix(tier string, r *vx.Report) {
 			matrices++
 		}
 	}
+	r.Evaluations += stats.evals
 	r.DistinctNontriv += stats.nontrivial
 	r.States += matrices
 	r.Extra["A.i/matrices"] = map[string]any{"membership_matrices_built_on_real_adapter": matrices, "selecting_calls_judged": stats.evals, "nontrivial_matrix_x_TE": stats.nontrivial}
@@ -556,6 +563,20 @@ func doAop(a adapter.Adapter, o aop) {
 	}
 }
 
+// aopJ is the serialisable form of an aop (replay files).
+type aopJ struct {
+	Kind           string
+	S, Rooms, T, E int
+}
+
+func aopsJ(h []aop) []aopJ {
+	out := make([]aopJ, len(h))
+	for i, o := range h {
+		out[i] = aopJ{o.kind, o.s, o.rooms, o.T, o.E}
+	}
+	return out
+}
+
 func histStr(h []aop) string {
 	var s []string
 	for _, o := range h {
@@ -566,12 +587,12 @@ func histStr(h []aop) string {
 
 // replayA runs a history on a fresh real adapter and judges the state it leaves. It returns the
 // canonical real state, the answers to all 64 broadcasts, and whether anything was violated.
-func replayA(hist []aop, r *vx.Report) (canon, answers string, bad bool) {
+func replayA(hist []aop, r sink) (canon, answers string, bad bool) {
 	m := amodel{}
 	last := "(nothing)"
 	viol := func(key, detail string) {
 		bad = true
-		r.Violate(key, fmt.Sprintf("history [%s]: %s", histStr(hist), detail), map[string]any{"part": "A.ii", "history": histStr(hist)})
+		r.Violate(key, fmt.Sprintf("history [%s]: %s", histStr(hist), detail), map[string]any{"part": "A.ii", "history": histStr(hist), "ops": aopsJ(hist)})
 	}
 	defer func() {
 		if p := recover(); p != nil {
